@@ -105,7 +105,8 @@ ASSUME = {
     "C02": ["CASE conditions must be operator-built booleans (a bool column as a CASE/WHERE condition is an error in this engine); NULL handling is left-biased (missing + 'x' = NULL, 'x' + missing = error) and the specification states that order explicitly",
             "`SELECT *` combined with an item aliased `<-`: Go deletes the `<-` key in a post-processor, the model keeps it; such aliases are not generated"],
     "C11": ["the generic trace theorem is tied to the Go source by the regenerated mutation-site obligation (syntactic, intraprocedural provenance; audited entries justified in Gen/SiteRules.v) and by deep comparison of the document after every generated query, incl. queries failing part-way; the Go runtime's map/slice aliasing semantics are as Go specifies"],
-    "C03": ["grouping claims for object rows whose key values are NULL/missing, bool, string or a non-NaN number (rows_ok); arrays/objects as key values make Go's == panic (error) and are not generated",
+    "C03": ["grouping claims for object rows in which every grouping column (a flat name, a key path a.b, an indexed selector a[i]) has a value that is NULL/missing, bool, string or a non-NaN number (rows_ok); arrays/objects as key values make Go's == panic (error) and are generated only with a single grouping column; a row without a value for a grouping column makes the query fail (C03_unreadable_key_is_refused)",
+            "grouping columns are modelled up to key steps and single [i] index steps (Model/Ast.v kstep); name and steps of a column are tied together by the harness (qast.go parseGroupKey) and by Proofs/C03PathReader.v key_texts_parse for the generated texts; ranges, pipes, quoted keys, `<-` and functions in a grouping column are not generated",
             "FloatEqLaws / FloatLtLaws are premises (proved from the stdlib FloatAxioms eqb_spec/ltb_spec in Proofs/C03FloatEq.v)",
             "engine quirks mirrored, outside the property text: AVG divides by the entry count including NULLs; COUNT(col) counts NULLs; MIN/MAX start from +-MaxFloat64"],
     "C05": ["ordering claims are made for key columns holding one scalar kind (sort_scope: vcompare is a three-way total preorder on each key column's non-NULL values; NumLaws premise for numbers, i.e. no NaN)",
